@@ -27,6 +27,7 @@ RULE += ' Added classes: in-memory curation (spike_clusters updated in place aft
 RULE += ' Cluster ids passed as NumPy scalars of rotating integer dtypes; get_merge_map() asked again after the caller wrote into its first result.'
 RULE += ' Round 5: template_scaling in params.py; first curation of an uncurated dataset saved with save_spike_clusters and loaded again.'
 RULE += ' Round 6: a cluster merged from 35 of 40 templates; a Kilosort-2 templates_ind.npy present.'
+RULE += ' Round 7: float64 templates hold genuinely double values and single-template clusters are compared exactly; in-place curation of a freshly loaded uncurated model (live merge map, templates untouched), then save_spike_clusters(model.spike_clusters) and reload.'
 EXHAUSTIVE = {'quick': False, 'thorough': False}
 FLOORS = {'quick': {'evaluations': 1100, 'distinct_nontrivial': 400},
           'thorough': {'evaluations': 15000, 'distinct_nontrivial': 4000}}
